@@ -72,6 +72,12 @@ func vLoadReplay(path string) (*vReplayFile, error) {
 	}
 	vVec, vPos, vBounds = rf.Vector, 0, rf.Bounds
 	vSched = rf.Sched
+	if rf.Kind == "race" {
+		// the race detector is the judge: the threads must run unsynchronised
+		// (schedule following parks one of them on a channel, which orders
+		// every access of the two threads and hides the race)
+		vSched = nil
+	}
 	vFailures, vObs, vAsserts = nil, nil, nil
 	return rf, nil
 }
